@@ -128,6 +128,35 @@ CbFails(st, prog, res, i) ==
 (***************************************************************************)
 (* verify                                                                  *)
 (***************************************************************************)
+\* normalise an observed generate result (top-level event or its "fresh" twin)
+GObs(x) ==
+  IF x.ret = "tok"
+  THEN [ret |-> "tok", wf |-> (x.dots = 2 /\ x.pad = 0 /\ x.urlsafe = 1 /\ x.canon = 1),
+        talg |-> x.talg, hdr |-> MapOfList(x.thdr), clm |-> MapOfList(x.tclm),
+        sigEmpty |-> (x.tsiglen = 0), validby |-> Range(x.validby),
+        threst |-> x.threst, tcrest |-> x.tcrest, thsmall |-> MapOfList(x.thsmall), tcsmall |-> MapOfList(x.tcsmall)]
+  ELSE NullG
+
+\* C05: the token carries what the builder was given (digest of everything but
+\* the library's own members) plus the members the library adds
+C05GenFails(e, b) ==
+  IF ~(Has(e, "given_hrest") /\ e.ret = "tok") THEN {}
+  ELSE LET hs == MapOfList(e.thsmall) cs == MapOfList(e.tcsmall) ref == GenRef(b, now, rings, ops) IN
+       F(e.threst = e.given_hrest /\ e.tcrest = e.given_crest, "C05.token-content")
+       \cup F(ref.ret = "tok" =>
+              /\ "alg" \in DOMAIN hs /\ hs["alg"] = <<"str", ref.alg, W0>>
+              /\ (ref.alg # "none" => "typ" \in DOMAIN hs)
+              /\ (b.iat => "iat" \in DOMAIN cs /\ cs["iat"] = <<"int", "", now>>)
+              /\ (b.expOn => "exp" \in DOMAIN cs /\ cs["exp"] = <<"int", "", WAdd(now, b.expOff)>>)
+              /\ (b.nbfOn => "nbf" \in DOMAIN cs /\ cs["nbf"] = <<"int", "", WAdd(now, b.nbfOff)>>), "C05.added-members")
+\* C05: what the checker callback reads is what the token carries
+C05ReadFails(e) ==
+  IF ~(e.tok.src = "slot" /\ Has(e, "cbres") /\ Len(e.cbres) > 0) THEN {}
+  ELSE LET rd == e.cbres[1] g == toks[e.tok.slot] IN
+       IF ~(rd.k = "read" /\ g.ret = "tok" /\ Has(g, "threst")) THEN {}
+       ELSE F(rd.hrest = g.threst /\ rd.crest = g.tcrest
+              /\ MapOfList(rd.hsmall) = g.thsmall /\ MapOfList(rd.csmall) = g.tcsmall, "C05.read")
+
 ParseTok(td) == ParseTokIn(toks, td)
 SigOK(td, item) == SigOKIn(toks, td, item)
 
@@ -142,7 +171,7 @@ VerifyFails(e) ==
   \cup (IF On("C02") THEN F(P_C02(pt, cb, e.ret), "C02.verify") ELSE {})
   \cup (IF On("C03") THEN F(P_C03(pt, cb, e.ret), "C03.verify") ELSE {})
   \cup (IF On("C04") THEN F(P_C04(ck, pt, cb, sok, now, ops, e.ret), "C04.claims") ELSE {})
-  \cup (IF On("C05") /\ e.tok.src = "slot" THEN F(ref = "accept" => e.ret = 0, "C05.verify") ELSE {})
+  \cup (IF On("C05") /\ e.tok.src = "slot" THEN F(ref = "accept" => e.ret = 0, "C05.verify") \cup C05ReadFails(e) ELSE {})
   \cup (IF On("C06") THEN F(P_C06(pt, e.ret), "C06.reject") ELSE {})
   \cup (IF On("C09") THEN F(P_C09(ck, pt, cb, sok, now, ops, e.ret), "C09.verify") ELSE {})
   \cup (IF On("C13") /\ Has(e, "fresh") THEN F((e.ret = 0) <=> (e.fresh.ret = 0), "C13.verify") ELSE {})
@@ -161,14 +190,6 @@ VerifyFails(e) ==
 (***************************************************************************)
 (* generate                                                                *)
 (***************************************************************************)
-\* normalise an observed generate result (top-level event or its "fresh" twin)
-GObs(x) ==
-  IF x.ret = "tok"
-  THEN [ret |-> "tok", wf |-> (x.dots = 2 /\ x.pad = 0 /\ x.urlsafe = 1 /\ x.canon = 1),
-        talg |-> x.talg, hdr |-> MapOfList(x.thdr), clm |-> MapOfList(x.tclm),
-        sigEmpty |-> (x.tsiglen = 0), validby |-> Range(x.validby)]
-  ELSE NullG
-
 GenerateFails(e) ==
   LET b == builders[e.b]
       ref == GenRef(b, now, rings, ops)
@@ -179,7 +200,8 @@ GenerateFails(e) ==
   \cup (IF On("C03") THEN F(P_C03g(b, now, rings, g), "C03.generate") ELSE {})
   \cup (IF On("C02") THEN F(P_C02g(b, now, rings, g), "C02.generate") ELSE {})
   \cup (IF On("C09") THEN F(P_C09g(b, now, rings, ops, g), "C09.generate") ELSE {})
-  \cup (IF On("C05") THEN F(P_GenSig(b, now, rings, ops, g), "C05.sig") ELSE {})
+  \cup (IF On("C05") THEN F(P_GenSig(b, now, rings, ops, g), "C05.sig") \cup C05GenFails(e, b)
+                          \cup F(ref.ret = "tok" => e.ret = "tok", "C05.generate") ELSE {})
   \cup (IF On("C14") THEN F(P_C14g(e.ret, e.err, e.msg), "C14.generate") ELSE {})
   \cup (IF On("C13") /\ Has(e, "fresh") THEN
           F(e.ret = e.fresh.ret, "C13.generate.ret")
@@ -296,7 +318,7 @@ Reset ==
 TInit ==
   /\ Init
   /\ l = 1 /\ viol = <<>> /\ skipping = FALSE /\ curcase = "-" /\ memo = [k \in {} |-> 0]
-  /\ cnt = [cases |-> 0, judged |-> 0, skipped |-> 0]
+  /\ cnt = [cases |-> 0, judged |-> 0, skipped |-> 0, shortrs |-> 0]
 
 MaxViol == 200
 
@@ -321,7 +343,8 @@ TNext ==
                /\ UNCHANGED <<vars, curcase, memo>>
           ELSE /\ Apply(e)
                /\ memo' = Memo(e)
-               /\ cnt' = [cnt EXCEPT !.judged = @ + 1]
+               /\ cnt' = [cnt EXCEPT !.judged = @ + 1,
+                                     !.shortrs = IF e.e = "Generate" /\ Has(e, "rs_short") /\ e.rs_short = 1 THEN @ + 1 ELSE @]
                /\ UNCHANGED <<viol, skipping, curcase>>
 
 TSpec == TInit /\ [][TNext]_<<vars, tvars>>
